@@ -1209,6 +1209,11 @@ pub fn run(ctx: &mut Ctx) {
         matrix.len()
     ));
     drain_timeouts(ctx);
+    // inputs beyond any round-number cap a reader might have (1 MiB, 16 MiB, 64 MiB): one size in quick, more in thorough
+    let sizes: &[usize] = if ctx.tier == crate::engine::Tier::Thorough { &[(1 << 20) + 1, (1 << 24) + 1, (1 << 26) - 1, (1 << 26) + 1, (1 << 27) + 3] } else { &[(1 << 26) + 1] };
+    let huge: Vec<HugeCase> = sizes.iter().flat_map(|n| [true, false].map(|stdin| HugeCase { len: *n, seed: ctx.sub_seed("huge", *n as u64), stdin })).collect();
+    ctx.run_cases("huge-input", &huge, judge_huge);
+    drain_timeouts(ctx);
 
     let n: u32 = ctx.tier.pick(4000, 60_000);
     ctx.run_prop("cli", n, || crate::gen::tape(1024).prop_map(gen_case), judge);
@@ -1251,8 +1256,45 @@ pub fn run(ctx: &mut Ctx) {
     ctx.floor_abs("bytes:non-utf8", ctx.tier.pick(10, 300));
 }
 
+/// `hash data` of a very large input (given by recipe, not stored): Keccak-256 of ALL of it, by file and stdin.
+#[derive(Clone, Debug, Serialize, Deserialize)]
+pub struct HugeCase {
+    pub len: usize,
+    pub seed: u64,
+    pub stdin: bool,
+}
+
+fn judge_huge(c: &HugeCase, cls: &mut Classifier) -> Verdict {
+    let data = Prng::new(c.seed).bytes(c.len);
+    let want = format!("0x{}\n", hex_lower(&keccak(&data)));
+    let root = root_path();
+    let Some(exe) = cli_path() else { return fail("cli", "not configured", "CLI not available") };
+    let (inv, file) = if c.stdin {
+        (Invocation::new(&["hash", "data", "-"]), None)
+    } else {
+        let f = crate::cli::temp_file(&root, &data);
+        (Invocation::new(&["hash", "data", &f.to_string_lossy()]), Some(f))
+    };
+    let args: Vec<std::ffi::OsString> = inv.args.iter().map(std::ffi::OsString::from).collect();
+    let out = crate::cli::run_raw(&exe, &args, &[], if c.stdin { &data } else { &[] }, std::time::Duration::from_secs(120));
+    if let Some(f) = file {
+        let _ = std::fs::remove_file(f);
+    }
+    if out.timed_out {
+        TIMEOUTS.lock().unwrap().push(format!("hash data on {} bytes", c.len));
+        return Ok(());
+    }
+    if !out.ok() || out.stdout_str() != want {
+        return fail(want, out.describe(), format!("`hdwallet {}` on {} bytes ({}): Keccak-256 of the whole input", inv.args[..2].join(" "), c.len, if c.stdin { "stdin" } else { "file" }));
+    }
+    cls.label("huge-input");
+    cls.nontrivial(&(c.len, c.seed, c.stdin));
+    Ok(())
+}
+
 pub fn replay(sub: &str, case: &Value) -> Option<Verdict> {
     match sub {
+        "huge-input" => Some(replay_as::<HugeCase>(case, judge_huge)),
         "cli" | "matrix" => Some(replay_as::<Case>(case, judge)),
         _ => None,
     }
